@@ -652,8 +652,10 @@ func (p *Parser) parseSlots() []*ast.SlotStmt {
 			Body:  p.parseBlockStmt(),
 		})
 
-		// the slot body must be closed by "@end"
-		if !p.curTokenIs(token.END) && !p.expectPeek(token.END) {
+		// the slot body must be closed by "@end". After parseBlockStmt the terminator
+		// is always the peek token (an "@end" in the current token closes a
+		// statement nested in the body, not the body itself)
+		if !p.expectPeek(token.END) {
 			return nil
 		}
 
@@ -738,8 +740,10 @@ func (p *Parser) parseInsertStmt() ast.Statement {
 		p.nextToken() // skip ")"
 		stmt.Block = p.parseBlockStmt()
 
-		// the block must be closed by "@end"
-		if !p.curTokenIs(token.END) && !p.expectPeek(token.END) {
+		// the block must be closed by "@end". After parseBlockStmt the terminator
+		// is always the peek token (an "@end" in the current token closes a
+		// statement nested in the block, not the block itself)
+		if !p.expectPeek(token.END) {
 			return nil
 		}
 	}
